@@ -209,10 +209,11 @@ def e_sql(e):
 
 
 def q_sql(q):
-    s = 'SELECT ' + ('DISTINCT ' if q.get('distinct') else '') + ', '.join(e_sql(x) for x in q['select'])
+    names = q.get('names') or [None] * len(q['select'])
+    s = 'SELECT ' + ('DISTINCT ' if q.get('distinct') else '') + ', '.join(e_sql(x) + (' AS %s' % n if n else '') for x, n in zip(q['select'], names))
     fr = ''
     for i, f in enumerate(q['from']):
-        t = f[1] if f[1] == f[2] else '%s AS %s' % (f[1], f[2])
+        t = ('(%s) AS %s' % (q_sql(f[1]), f[2])) if isinstance(f[1], dict) else (f[1] if f[1] == f[2] else '%s AS %s' % (f[1], f[2]))
         if i == 0:
             fr = t
         elif f[0] == 'cross':
